@@ -226,8 +226,12 @@ impl<'a, 'b> BlockState<'a, 'b> {
                 offsets.indent_nonspace - indent as i32
             );
 
+            // spaces that stand for a part of a split tab map to that tab
+            for _ in 0..num_spaces {
+                mapping.push(( result.len(), offsets.line_start+first-1 ));
+                result.push(' ');
+            }
             mapping.push(( result.len(), offsets.line_start+first ));
-            result += &" ".repeat(num_spaces as usize);
             result += &self.src[offsets.line_start+first..last];
             if add_last_lf { result.push('\n'); }
             line += 1;
